@@ -258,7 +258,9 @@ func doParsing(mp *msgParser) (err error) {
 			mp.msg.Trailer.add(mp.msg.fields[mp.fieldIndex : mp.fieldIndex+1])
 			mp.foundTrailer = true
 		case isNumInGroupField(mp.msg, []Tag{mp.parsedFieldBytes.tag}, mp.appDataDictionary):
-			parseGroup(mp, []Tag{mp.parsedFieldBytes.tag})
+			if err = parseGroup(mp, []Tag{mp.parsedFieldBytes.tag}); err != nil {
+				return
+			}
 		default:
 			mp.foundBody = true
 			mp.trailerBytes = mp.rawBytes
@@ -312,7 +314,7 @@ func doParsing(mp *msgParser) (err error) {
 }
 
 // parseGroup iterates through a repeating group to maintain correct order of those fields.
-func parseGroup(mp *msgParser, tags []Tag) {
+func parseGroup(mp *msgParser, tags []Tag) (err error) {
 	mp.foundBody = true
 	dm := mp.msg.fields[mp.fieldIndex : mp.fieldIndex+1]
 	fields := getGroupFields(mp.msg, tags, mp.appDataDictionary)
@@ -326,7 +328,9 @@ func parseGroup(mp *msgParser, tags []Tag) {
 		}
 		mp.parsedFieldBytes = &mp.msg.fields[mp.fieldIndex]
 		bytesBeforeField := mp.rawBytes
-		mp.rawBytes, _ = extractField(mp.parsedFieldBytes, mp.rawBytes)
+		if mp.rawBytes, err = extractField(mp.parsedFieldBytes, mp.rawBytes); err != nil {
+			return
+		}
 		mp.trailerBytes = mp.rawBytes
 
 		// Is this field a member for the group.
@@ -394,6 +398,7 @@ func parseGroup(mp *msgParser, tags []Tag) {
 			break
 		}
 	}
+	return nil
 }
 
 // isNumInGroupField evaluates if this tag is the start of a repeating group.
